@@ -135,7 +135,7 @@ def digits(v, base):
 
 
 def underscore_variants(ds):
-    out = {ds, "00" + ds, ds + "_", ds + "__", ds.upper()}
+    out = {ds, "0" + ds, "00" + ds, ds + "_", ds + "__", ds.upper()}
     if len(ds) > 1:
         out.add(ds[0] + "_" + ds[1:])
         out.add(ds[:-1] + "__" + ds[-1])
@@ -162,6 +162,8 @@ def c19_space(tier):
                     vals.add(((1 << (k + 1)) - 1) & top)
             vals.add(int("7" * 50, 8) & top)
             vals.add(int("a5" * 40, 16) & top)
+            # digit strings that begin like another base's prefix once a leading zero is written (0x0b.., 0x0B..)
+            vals.update(x & top for x in (0xb, 0xb0, 0xb1, 0xb11, 0xb7, 0xbf, 0xb1010))
             if w >= 1024:
                 vals.add(int("1234567890" * 30) & top)
             for v in sorted(vals):
@@ -184,7 +186,7 @@ def c19_space(tier):
         for lit in ["1a", "a", "1A_", "12f", "9a9", "1_a", "1.5", "1e3"]:
             neg.append((f"{lit}_U{w}", "digit not valid in base 10"))
             neg.append((f"{lit}U{w}", "digit not valid in base 10"))
-        for lit in ["0o8", "0o18_", "0o9", "0b2", "0b12", "0b1a", "0x1g", "0xg_", "0o7a", "0b102", "0o78"]:
+        for lit in ["0o8", "0o18_", "0o9", "0b2", "0b12", "0b1a", "0x1g", "0xg_", "0o7a", "0b102", "0o78", "0o0b1", "0x0o7", "0b0x1", "0x0x1", "0b0b1", "0o0o7", "0b0o1", "0o0x7"]:
             neg.append((f"{lit}_U{w}", "digit not valid in its base"))
     pos = sorted(set(pos))
     neg = sorted(set(neg))
@@ -218,6 +220,7 @@ def c19_accept_program(chunk):
         for r, p in PFX.items():
             if p and body.startswith(p):
                 radix, body = r, body[len(p):]
+                break  # one prefix only: the digits of 0x0b1 begin with "0b"
         body = body.strip("_") or "0"
         lines.append(f"  c{'u' if t == 'U' else 'b'}({j}, {lit}, {w}, \"{body}\", {radix});")
     lines.append("}}")
@@ -280,6 +283,42 @@ FORWARDED = [
     ("fwd_expr!(5_U8)", (8, 5)), ("fwd_expr!((3_U65))", (65, 3)), ("fwd_lit!(0xff_U8)", (8, 255)), ("fwd_tt!(7_U9)", (9, 7)),
     ("fwd_expr!(fwd_expr!(0b11_U2))", (2, 3)), ("fwd_expr!(id(0o17_U4))", (4, 15)), ("fwd_two!(1_U1, 1_U1)", (1, 0)), ("fwd_lit!(0xAB_B8).into_inner()", (8, 0xAB)),
 ]
+
+
+# literals that differ only in underscore placement, suffix letter or prefix, some typed and some passing through:
+# every ORDERED PAIR of them is expanded inside ONE invocation and compared with the two single-literal
+# invocations (state carried from one literal to the next inside an invocation must not exist)
+HIST = ["0x1_B8", "0x1B8", "0x12_B8", "0x12B8", "0x1_2B8", "0xAB_B8", "0xABB8", "0x1_U8", "0x1U8", "1_U8", "1U8", "0x1_U16", "1_U16", "0b1_U8",
+        "0o1_U8", "0x0B8", "0xB8", "0x0_B8", "1u8", "1", "0x1_B16", "0x1B16", "0x1_B8_U16", "0x1B8_U16"]
+
+
+def c19_hist_program():
+    lines = ["#![allow(unused)]", "use ruint::{uint, Uint, Bits};", "fn ty<T>(_: &T) -> &'static str { std::any::type_name::<T>() }", "fn main() {"]
+    for i, a in enumerate(HIST):
+        lines.append(f"  {{ let s = uint! {{ {a} }}; println!(\"S{i} {{}} {{:?}}\", ty(&s), s); }}")
+    for i, a in enumerate(HIST):
+        for j, b in enumerate(HIST):
+            lines.append(f"  {{ let p = uint! {{ ({a}, [{b}]) }}; println!(\"H{i}_{j} {{}} {{:?}} | {{}} {{:?}}\", ty(&p.0), p.0, ty(&p.1[0]), p.1[0]); }}")
+    lines.append("}")
+    return "\n".join(lines)
+
+
+def c19_hist(d):
+    src = os.path.join(d, "hist.rs")
+    open(src, "w").write(c19_hist_program())
+    rc, err = rustc(src, src[:-3])
+    if rc != 0:
+        return [("history", "pairs of literals inside one invocation", "rejected at compile time", "compiles", err.strip()[:600])]
+    _, out, _ = run_bin(src[:-3])
+    seen = {l.split(" ", 1)[0]: l.split(" ", 1)[1] for l in out.splitlines() if " " in l}
+    viol = []
+    for i, a in enumerate(HIST):
+        for j, b in enumerate(HIST):
+            e = f"{seen.get(f'S{i}')} | {seen.get(f'S{j}')}"
+            g = seen.get(f"H{i}_{j}")
+            if g != e or f"S{i}" not in seen:
+                viol.append(("history", f"({a}, [{b}])", str(g), e + " (each literal as when expanded alone)", ""))
+    return viol
 
 
 def c19_misc_program(only=None):
@@ -357,6 +396,8 @@ def c19(tier, seed):
             e = f"{w} {[(v >> (64 * i)) & (2 ** 64 - 1) for i in range((w + 63) // 64)]}"
             if seen.get(f"N{k}") != e:
                 viol.append(("nesting", frag, str(seen.get(f"N{k}")), e, ""))
+    viol += c19_hist(d)
+    nmisc += len(HIST) * len(HIST)
     shutil.rmtree(d, ignore_errors=True)
     total = len(pos) + len(neg) + nmisc
     real = 0
@@ -377,7 +418,7 @@ def c19(tier, seed):
             "states": total, "transitions": total, "traces_validated_against_impl": total,
             "evaluations": total, "distinct_nontrivial": len(neg) + sum(1 for p in pos if p[2] > 1) + nmisc,
             "programs": len(chunks) + len(neg) + 1,
-            "rule": "program space: literal = base prefix {'',0x,0o,0b} x digit string (values 0, 1, 2^w-2, 2^w-1, 2^(w-1), digit-run and limb-straddling patterns, long decimals) x underscore placement (leading zeros, after first digit, doubled, before suffix, every 3 digits, upper case) x suffix {U,B} x 16 widths 0..4096 (29 thorough); every accepting literal is compiled through the real macro and its limbs compared with the Python value AND with from_str_radix of the same digits at run time, the type being pinned by a function generic over <BITS, LIMBS>; every rejecting literal (value >= 2^w, digit invalid in its base) is its own program and must fail to compile; pass-through tokens are compared (value and type) with the same tokens outside the macro, alone and nested 4 groups deep; non-trivial = value > 1, or a rejecting / pass-through case",
+            "rule": "program space: literal = base prefix {'',0x,0o,0b} x digit string (values 0, 1, 2^w-2, 2^w-1, 2^(w-1), digit-run and limb-straddling patterns, long decimals) x underscore placement (leading zeros, after first digit, doubled, before suffix, every 3 digits, upper case) x suffix {U,B} x 16 widths 0..4096 (29 thorough); every accepting literal is compiled through the real macro and its limbs compared with the Python value AND with from_str_radix of the same digits at run time, the type being pinned by a function generic over <BITS, LIMBS>; every rejecting literal (value >= 2^w, digit invalid in its base) is its own program and must fail to compile; pass-through tokens are compared (value and type) with the same tokens outside the macro, alone and nested 4 groups deep; every ordered pair of 24 confusable literals inside ONE invocation is compared with the two single-literal invocations; non-trivial = value > 1, or a rejecting / pass-through case",
             "samples": [{"literal": p[0], "width": p[1], "value": str(p[2])} for p in (pos[:2] + pos[len(pos) // 2:len(pos) // 2 + 2] + pos[-2:])] + [{"rejecting": n[0], "why": n[1]} for n in neg[:3]] + [{"pass_through": t} for t in PASS_THROUGH[:4]],
             "exhaustive": True,
             "accepting_literals": len(pos), "rejecting_literals": len(neg), "pass_through_and_nesting_cases": nmisc,
